@@ -2,6 +2,9 @@
 (* Model-checking / simulation instances of SchemaComp: the universes of declarable fields.         *)
 EXTENDS SchemaComp
 
+PickAll(X) == X
+PickOne(X) == IF X = {} THEN {} ELSE {RandomElement(X)}
+
 Opt(t, vals) == [type |-> t, vals |-> vals]
 IntVals == << <<"1", "ONE">>, <<"2", "TWO">>, <<"7", "SEVEN">> >>
 CharVals == << <<"A", "ALPHA">>, <<"B", "BRAVO">>, <<"z", "ZULU">> >>
